@@ -552,6 +552,9 @@ static std::vector<Prog> queue_programs(Kind k, bool thorough) {
   add("2p-2c", {{Pu(1), Pu(2)}, {Pf(3)}, {C(POP), C(POP)}, {C(POP)}});
   add("2p-2c-k", {{Pu(1)}, {Pf(2)}, {C(POP)}, {C(POP), C(SIZE)}, {C(KILL)}});
   add("3p-3c", {{Pu(1)}, {Pu(2)}, {Pu(3)}, {C(POP)}, {C(POP)}, {C(POP)}});
+  // SignalForKill with several consumers blocked and no push left that could wake the others by accident
+  add("0p-2c-k", {{C(POP)}, {C(POP)}, {C(KILL)}});
+  add("1p-3c-k", {{Pu(1)}, {C(POP)}, {C(POP)}, {C(POP)}, {C(KILL)}});
   if (thorough) {
     add("3p-3c-k", {{Pu(1), Pu(4)}, {Pf(2)}, {Pu(3)}, {C(POP), C(POP)}, {C(POP)}, {C(POP)}, {C(KILL)}});
     add("2k", {{Pu(1)}, {C(POP), C(POP)}, {C(KILL)}, {C(KILL)}});
